@@ -36,9 +36,116 @@ def run(report, db, tier):
     r3(report, db, P, cg, classes, versions)
     r4(report, db, P)
     r5(report, db, P, cg, classes, versions)
+    r6(report, db, P, cg)
 
 
 # ---------------------------------------------------------------------------
+UNSIGNED = ('VarInt', 'VarLong', 'UnsignedByte', 'UnsignedShort',
+            'UnsignedInteger', 'UnsignedLong', 'Boolean')
+
+
+def r6(report, db, P, cg):
+    """Where a hand-written reader and its writer both make a decision on
+    the value of the same field (an optional group of fields present only
+    when `data > 0`, say), they must make the same decision: otherwise the
+    writer emits bytes the reader leaves unread, or the reader waits for
+    bytes that were never written."""
+    R = report.rule('R05.6', 'hand-written pairs: reader and writer test the '
+                    'value of a field in the same way')
+    from .. import shared
+    from ..pathsum import struct, show, subterms, is_const, replace
+    S = shared.summariser(db, cg, implicit_raises=False, max_paths=3000)
+    pairs = []
+    for ci in db.classes:
+        if not db.is_subclass(ci, P.packet_ci):
+            continue
+        rd, wr = db.own_method(ci, 'read'), db.own_method(ci, 'write_fields')
+        if rd is not None and wr is not None and ci is not P.packet_ci:
+            pairs.append((ci, rd, wr))
+    nchecked = 0
+
+    def canon(a, unsigned):
+        """comparison of a field with an integer constant, as (field, kind,
+        constant): `c < x`, `x < c` or `x == c`"""
+        if a[1] == 'truth':
+            x = a[2][0]
+            return (struct(x), 'nonzero', 0)
+        if a[1] in ('<', '<=', '==') and len(a[2]) == 2:
+            l, r = a[2]
+            if is_const(l) and isinstance(l[1], int) and not is_const(r):
+                c = l[1] - (1 if a[1] == '<=' else 0)
+                if a[1] == '==':
+                    return (struct(r), 'nonzero' if c == 0 else 'eq', c)
+                if c == 0 and struct(r) in unsigned:
+                    return (struct(r), 'nonzero', 0)
+                return (struct(r), 'gt', c)
+            if is_const(r) and isinstance(r[1], int) and not is_const(l):
+                c = r[1] + (1 if a[1] == '<=' else 0)
+                if a[1] == '==':
+                    return (struct(l), 'nonzero' if c == 0 else 'eq', c)
+                if c == 1 and struct(l) in unsigned:
+                    return (struct(l), 'nonzero', 0)
+                return (struct(l), 'lt', c)
+        return None
+
+    for ci, rd, wr in sorted(pairs, key=lambda t: t[0].qualname):
+        try:
+            rp, wp = S.run(rd), S.run(wr)
+        except AnalysisError:
+            continue                # decided (or refused) by R05.3
+        me_r, me_w = ('sym', rd.params[0]), ('sym', wr.params[0])
+        # reader: what each stored field holds, to read its decisions as
+        # decisions on fields
+        guards = {'r': {}, 'w': {}}
+        unsigned = set()
+        for side, paths, me in (('r', rp, me_r), ('w', wp, me_w)):
+            for p in paths:
+                subst = []
+                if side == 'r':
+                    for e in p.flat(('store',)):
+                        if struct(e.base) == me and isinstance(e.attr, str) \
+                                and e.value is not None and \
+                                e.value[0] == 'call':
+                            fld = ('attr', ('sym', 'self'), e.attr)
+                            subst.append((e.value, fld))
+                            tg = [t for ev in p.flat(('call',))
+                                  if ev.res == e.value
+                                  for t in (ev.targets or ())]
+                            if tg and all(t.cls is not None and t.cls.name
+                                          in UNSIGNED for t in tg):
+                                unsigned.add(fld)
+                for a, pol, _ in p.conds:
+                    t = a
+                    for old, new in subst:
+                        t = replace(t, old, new)
+                    t = replace(t, me, ('sym', 'self'))
+                    c = canon(t, unsigned)
+                    if c is None or c[0][0] != 'attr' or \
+                            c[0][1] != ('sym', 'self'):
+                        continue
+                    guards[side].setdefault(c[0][2], set()).add(c[1:])
+        for fld in sorted(set(guards['r']) & set(guards['w'])):
+            nchecked += 1
+            if guards['r'][fld] == guards['w'][fld]:
+                report.ok(R, '%s.%s: reader and writer decide on it alike %s'
+                          % (ci.name, fld, sorted(guards['r'][fld])))
+            else:
+                def txt(g):
+                    return ', '.join('%s %s' % ({
+                        'gt': '> ', 'lt': '< ', 'eq': '== ',
+                        'nonzero': '!= '}[k], c) for k, c in sorted(g))
+                report.violation(
+                    R, 'guards:%s.%s' % (ci.name, fld), wr.path, wr.node,
+                    wr.qualname, 'the reader decides on %s by [%s] but the '
+                    'writer by [%s]: for a value on which they differ the '
+                    'writer emits fields the reader does not consume (or '
+                    'the other way round)' % (fld, txt(guards['r'][fld]),
+                                              txt(guards['w'][fld])))
+    report.note('hand-written pairs', len(pairs))
+    report.note('fields tested on both sides', nchecked)
+    report.floor('hand-written reader/writer pairs', len(pairs), 5)
+
+
 def r1(report, db, P):
     R = report.rule('R05.1', 'generic codec: reader and writer iterate the '
                     'same definition in order, pairing each name with '
